@@ -318,6 +318,9 @@ type C15PrimHolder struct {
 	O  C15Micros            `json:"o,omitempty"`
 	F  C15Flag              `json:"f"`
 	S  string               `json:"s"`
+	// an unnamed type with a registered schema (registrations are keyed by reflect.Type, declared or not); one
+	// occurrence only: a named schema at several positions is the mechanism of the listed known finding
+	PID *cObjID `json:"pid"`
 }
 
 func c15Registered(c *driverCtx) {
@@ -349,14 +352,19 @@ func c15Registered(c *driverCtx) {
 		for _, r := range []struct {
 			t  reflect.Type
 			sj string
-		}{{reflect.TypeOf(C15Date("")), `{"type":"int","logicalType":"date"}`}, {reflect.TypeOf(C15Micros(0)), `{"type":"long","logicalType":"timestamp-micros"}`}, {reflect.TypeOf(C15Flag(false)), `"string"`}} {
+		}{{reflect.TypeOf(C15Date("")), `{"type":"int","logicalType":"date"}`}, {reflect.TypeOf(C15Micros(0)), `{"type":"long","logicalType":"timestamp-micros"}`}, {reflect.TypeOf(C15Flag(false)), `"string"`},
+			{reflect.TypeOf(cObjID{}), `{"type":"fixed","name":"ObjID","size":12}`}} {
 			sch, err := avro.SchemaFromString(r.sj)
 			if err != nil {
 				panic(err)
 			}
 			avro.RegisterSchema(r.t, sch)
 			sn, _ := schemaNodeFromJSON([]byte(r.sj))
-			regs = append(regs, map[string]any{"name": r.t.Name(), "schema": sn})
+			name := r.t.Name()
+			if cn, ok := customNames[r.t]; ok && name == "" {
+				name = cn
+			}
+			regs = append(regs, map[string]any{"name": name, "schema": sn})
 		}
 		t := reflect.TypeOf(C15PrimHolder{})
 		res := schemagenOnce(t)
